@@ -100,6 +100,9 @@ def _init_var(st):
     return None
 
 
+_GUARDS = [True]
+
+
 def _norm_list(items, in_loop, at_function_end, void_fn):
     out = []
     items = [_norm(i, False, False, void_fn) if isinstance(i, dict) else i for i in items]
@@ -121,7 +124,7 @@ def _norm_list(items, in_loop, at_function_end, void_fn):
                 i += 1
                 continue
         # N2 / N4
-        if k == 'IfStmt' and len(st['inner']) == 2 and i + 1 < len(items):
+        if _GUARDS[0] and k == 'IfStmt' and len(st['inner']) == 2 and i + 1 < len(items):
             th = st['inner'][1]
             kinds = [x.get('kind') for x in (th.get('inner', []) if th.get('kind') == 'CompoundStmt' else [th])]
             if (in_loop and kinds == ['ContinueStmt']) or (at_function_end and void_fn and kinds == ['ReturnStmt'] and not (th.get('inner', [{}])[0].get('inner') if th.get('kind') == 'CompoundStmt' else th.get('inner'))):
@@ -165,8 +168,17 @@ def _norm(node, in_loop_body, at_function_end, void_fn):
     return node
 
 
-def normalised_function(fn):
-    """a copy of the FunctionDecl whose body is in normal form"""
+def normalised_function(fn, guards=True):
+    """a copy of the FunctionDecl whose body is in normal form; guards=False keeps `if (c) continue/return;` guards as they
+    are and only rewrites loops and conditions"""
+    _GUARDS[0] = guards
+    try:
+        return _normalised_function(fn)
+    finally:
+        _GUARDS[0] = True
+
+
+def _normalised_function(fn):
     out = dict(fn)
     inner = []
     void_fn = (fn.get('type') or {}).get('qualType', '').startswith('void ')
